@@ -241,6 +241,35 @@ def check(ctx, p):
             ctx.ok("C05-R5", "solve(): ldl_factorization(self) dominates substitutions(self), whose result is returned", s.loc())
         else:
             ctx.fail("C05-R5", s.path, "order", "solve() does not factorise exactly once before substituting (ldl calls %d, substitution calls %d, returns %s)" % (len(c1), len(c2), show(ret)[:80]), s.loc())
+    # who may substitute: the substitutions are meaningful only on a factorised matrix, so every
+    # call site in the crate sits behind a factorisation of the same receiver in the same body
+    nsub = 0
+    for path, b2 in p.bodies.items():
+        cs = cm.local_calls(b2, p, exact=M + "substitutions")
+        if not cs:
+            continue
+        eb2 = ExprBuilder(b2)
+        fs = cm.local_calls(b2, p, exact=M + "ldl_factorization")
+        for cbb, ct in cs:
+            nsub += 1
+            recv = show(eb2.at(cbb).op(ct["args"][0]))
+            okf = any(fbb in b2.dominators().get(cbb, ()) and fbb != cbb and show(eb2.at(fbb).op(ft["args"][0])) == recv for fbb, ft in fs)
+            if okf:
+                ctx.ok("C05-R5", "%s: substitutions(%s) behind ldl_factorization(%s)" % (cm.short(path), recv, recv), cm.loc_of(ct["span"]))
+            else:
+                ctx.fail("C05-R5", path, "substitution without factorisation", "substitutions(%s) is called on a matrix that was not factorised on this path: the result solves a different system unless the matrix is diagonal" % recv, cm.loc_of(ct["span"]))
+    ctx.anchor("C05-R5", "call sites of substitutions", nsub, 1, None)
+    # every trajectory comes out of solve(): no path of par() returns without it
+    pb = cm.body_or_fail(ctx, p, "C05-R5", M + "par")
+    if pb is not None:
+        # (a substitution call counts as well: the rule above puts a factorisation in front of it)
+        sv = [bb for bb, t in cm.local_calls(pb, p, exact=M + "solve")] + [bb for bb, t in cm.local_calls(pb, p, exact=M + "substitutions")]
+        rets = [bb for bb in range(len(pb.blocks)) if not pb.is_cleanup(bb) and pb.blocks[bb]["term"]["k"] == "return"]
+        leak = [r for r in rets if pb.can_reach(0, r, avoid=set(sv))]
+        if sv and not leak:
+            ctx.ok("C05-R5", "par(): every path to the return passes through the solver (%d call sites)" % len(sv), pb.loc())
+        else:
+            ctx.fail("C05-R5", pb.path, "unsolved path", "par() can return without going through solve() (factorise + substitute)", pb.loc())
 
 
 # ---------------------------------------------------------------------------------------------
